@@ -1261,8 +1261,17 @@ func (w *_mapAssembler) AssembleKey() datamodel.NodeAssembler {
 		cfg:        w.cfg,
 		schemaType: w.schemaType.KeyType(),
 		val:        reflect.New(w.valuesVal.Type().Key()).Elem(),
+		finish:     w.checkRepeatedKey,
 	}
 	return &w.curKey
+}
+
+// checkRepeatedKey runs when a key has been assigned: a key already present is refused.
+func (w *_mapAssembler) checkRepeatedKey() error {
+	if w.valuesVal.MapIndex(w.curKey.val).IsValid() {
+		return datamodel.ErrRepeatedMapKey{Key: newNode(w.cfg, w.schemaType.KeyType(), w.curKey.val)}
+	}
+	return nil
 }
 
 func (w *_mapAssembler) AssembleValue() datamodel.NodeAssembler {
